@@ -292,13 +292,15 @@ Proof.
 Qed.
 
 (* ---------- follower side ---------- *)
-Theorem follower_commit_spec commit lc last :
-  commit <= last ->
-  let c' := follower_commit commit lc last in
-  commit <= c' /\ c' <= last /\ c' <= N.max commit lc.
+Theorem follower_commit_spec commit lc ln last :
+  let c' := follower_commit commit lc ln last in
+  commit <= c' /\ (c' = commit \/ (c' <= lc /\ c' <= ln /\ c' <= last)).
 Proof.
-  intros H. unfold follower_commit.
-  destruct (N.ltb_spec 0 lc); destruct (N.ltb_spec commit lc); simpl; lia.
+  unfold follower_commit.
+  destruct (N.ltb_spec 0 lc); destruct (N.ltb_spec commit lc); simpl; try (split; [lia|left; reflexivity]).
+  cbv zeta. destruct (N.ltb_spec commit (N.min lc (N.min ln last))).
+  - split; [lia|right; lia].
+  - split; [lia|left; reflexivity].
 Qed.
 
 (* the current-term rule (Figure 8): entries below startIndex on a majority do not commit *)
